@@ -76,3 +76,32 @@ Example C19_canon_assert_refuted :
   canonicalize_expr 50 (EBin KAdd (EBin KAdd (EDim 0) (ECst 2)) (ECst (-2))) = None.
 Proof. vm_compute. reflexivity. Qed.
 Print Assumptions C19_canon_assert_refuted.
+
+(* ---- (b) StridePattern.canonicalize (generated model Gen/StrideCanon.v) ------------------------ *)
+From Snax Require Import Model.C19Stride Gen.StrideCanon Proofs.C19StrideProofs.
+
+(* For every stride pattern with non-negative upper bounds (any rank; zero bounds, zero strides, unit
+   bounds, negative strides included) the canonical pattern produces the same sequence of temporal
+   addresses, in the same order, and keeps the spatial strides. *)
+Theorem C19_stride_canon_words :
+  forall p p', Forall (fun b => 0 <= b) (sp_ub p) -> StridePattern_canonicalize p = Some p' ->
+    sp_ss p' = sp_ss p /\ taddrs p' = taddrs p.
+Proof. exact stride_canon_words. Qed.
+Print Assumptions C19_stride_canon_words.
+
+Theorem C19_stride_canon_total : forall p, exists p', StridePattern_canonicalize p = Some p'.
+Proof. exact stride_canon_total. Qed.
+Print Assumptions C19_stride_canon_total.
+
+Example C19_stride_nonvacuous :
+  let p := SP [4; 1; 2; 0; 3] [8; 5; 32; 7; 0] [1] in
+  Forall (fun b => 0 <= b) (sp_ub p) /\ StridePattern_canonicalize p = Some (SP [8; 0] [8; 0] [1]).
+Proof. split; [repeat constructor; lia | vm_compute; reflexivity]. Qed.
+Print Assumptions C19_stride_nonvacuous.
+
+(* the hypothesis is needed: with two negative bounds the merged bound is positive *)
+Example C19_stride_negative_bounds_refuted :
+  let p := SP [-2; -3] [1; -2] [1] in
+  exists p', StridePattern_canonicalize p = Some p' /\ taddrs p = [] /\ taddrs p' <> [].
+Proof. eexists. split; [vm_compute; reflexivity|]. split; [reflexivity | vm_compute; discriminate]. Qed.
+Print Assumptions C19_stride_negative_bounds_refuted.
